@@ -23,7 +23,7 @@ NOSITE = -1
 BOUNDS = {
     'quick': 'between-species: 1 frame, one atom with coordinates any reals in [0,1)^3 against 1-2 concrete atoms of the other species on '
              'cubic5 / hex558, (max_dist, resolution) in {(2.0, 0.5), (3.0, 1.0)}; per-state RDF: 2 frames, diffusing atom with symbolic '
-             'states over 3 labelled sites (labels A,A,B) and one symbolic coordinate axis, 1 other atom',
+             'states over 3 labelled sites (labels A,A,B) and one symbolic coordinate axis, 2 other atoms (S and Si)',
     'thorough': 'additionally tric lattice, 2 symbolic atoms, 2 frames; per-state RDF with 3 frames',
 }
 OUTSIDE = ['more than 3 atoms / 3 frames', 'binary64 rounding of np.arange bin edges (read as exact rationals)']
@@ -153,6 +153,7 @@ def states_job(params):
     lat, T, md, res = params['lattice'], params['T'], params['max_dist'], params['resolution']
     M = pool.lattice_matrices()[lat]
     other = [0.5, 0.5, 0.5]
+    other2 = [0.3, 0.2, 0.1]    # a second species whose symbol (Si) contains the first one (S)
     base = [0.1, 0.2, 0.3]
 
     def body():
@@ -163,9 +164,9 @@ def states_job(params):
             LP = LatticeProxy(Lattice(M))
             xs = [[sym_real(f'x_{t}', 0, 1, hi_strict=True), core.rat(base[1]), core.rat(base[2])] for t in range(T)]
             st = S([[sym_int(f's_{t}', NOSITE, 2)] for t in range(T)])
-            coords = S([[xs[t], [core.rat(v) for v in other]] for t in range(T)])
-            tr = _traj(gt, ['Li', 'S'], coords, M)
-            placeholder = Structure(Lattice(M), ['Li', 'S'], [base, other])
+            coords = S([[xs[t], [core.rat(v) for v in other], [core.rat(v) for v in other2]] for t in range(T)])
+            tr = _traj(gt, ['Li', 'S', 'Si'], coords, M)
+            placeholder = Structure(Lattice(M), ['Li', 'S', 'Si'], [base, other, other2])
             tr.get_structure = lambda i: placeholder
             sites = Structure(Lattice(M), ['Li'] * 3, [[0.1, 0.1, 0.1], [0.5, 0.1, 0.1], [0.1, 0.5, 0.5]], labels=SITE_LABELS)
             trans = gtr.Transitions.__new__(gtr.Transitions)
@@ -196,7 +197,7 @@ def states_job(params):
                 for r in coll:
                     prove('x = bin edges', len(r.y) == nbin)
                     total_by_symbol.setdefault(r.label, []).append((state, r))
-            for sym, atom_coords in (('Li', None), ('S', other)):
+            for sym, atom_coords in (('Li', None), ('S', other), ('Si', other2)):
                 entries = total_by_symbol.get(sym, [])
                 for t in range(T):
                     pass
@@ -217,7 +218,7 @@ def states_job(params):
                             if sym == 'Li':
                                 q = 0  # distance of the diffusing atom to itself
                             else:
-                                q = _dist2(LP, xs[t], [core.rat(v) for v in other])
+                                q = _dist2(LP, xs[t], [core.rat(v) for v in atom_coords])
                             # np.digitize(d, bins, right=True): bin b  <=>  edges[b-1] < d <= edges[b]
                             lo_ok = True if b == 0 else (q > nb_edges[b - 1] ** 2)
                             in_bin = conj([lo_ok, q <= nb_edges[b] ** 2])
@@ -228,7 +229,7 @@ def states_job(params):
                 tot = core.ssum([core.ssum(list(r.y)) for _, r in entries])
                 within = []
                 for t in range(T):
-                    q = 0 if sym == 'Li' else _dist2(LP, xs[t], [core.rat(v) for v in other])
+                    q = 0 if sym == 'Li' else _dist2(LP, xs[t], [core.rat(v) for v in atom_coords])
                     within.append(ite(q <= nb_edges[-1] ** 2, 1, 0))
                 prove('every pair within the cut-off is counted in exactly one state and one distance bin', tot == core.ssum(within))
             sample(dict(T=T, lattice=lat, states=sorted(rdfs)))
@@ -244,10 +245,11 @@ def states_job_replay(params, inputs):
     lat, T, md, res = params['lattice'], params['T'], params['max_dist'], params['resolution']
     M = pool.lattice_matrices()[lat]
     other = [0.5, 0.5, 0.5]
+    other2 = [0.3, 0.2, 0.1]
     base = [0.1, 0.2, 0.3]
     xs = [[float(inputs[f'x_{t}']), base[1], base[2]] for t in range(T)]
     st = np.array([[int(inputs[f's_{t}'])] for t in range(T)])
-    tr = _traj(gt, ['Li', 'S'], np.array([[xs[t], other] for t in range(T)]), M)
+    tr = _traj(gt, ['Li', 'S', 'Si'], np.array([[xs[t], other, other2] for t in range(T)]), M)
     sites = Structure(Lattice(M), ['Li'] * 3, [[0.1, 0.1, 0.1], [0.5, 0.1, 0.1], [0.1, 0.5, 0.5]], labels=SITE_LABELS)
     trans = gtr.Transitions.__new__(gtr.Transitions)
     trans.trajectory, trans.sites, trans.states, trans.diff_trajectory = tr, sites, st, None
@@ -264,22 +266,29 @@ def states_job_replay(params, inputs):
             state = None  # '~>' states: name depends on which side is unknown, only membership is checked
         else:
             state = SITE_LABELS[p[0]] + '->' + SITE_LABELS[n[0]]
-        d = pool.min_image_dist(M, xs[t], other)
-        if min(abs(d - res * i) for i in range(nb)) < 1e-7:
-            return True, 'distance on a bin edge: outside the claim'
-        if d <= res * (nb - 1) and state is not None:
-            b = int(math.ceil(d / res - 1e-12))
-            exp[(state, 'S', b)] = exp.get((state, 'S', b), 0) + 1
+        for sym, oc in (('S', other), ('Si', other2)):
+            d = pool.min_image_dist(M, xs[t], oc)
+            if min(abs(d - res * i) for i in range(nb)) < 1e-7:
+                return True, 'distance on a bin edge: outside the claim'
+            if d <= res * (nb - 1) and state is not None:
+                b = int(math.ceil(d / res - 1e-12))
+                exp[(state, sym, b)] = exp.get((state, sym, b), 0) + 1
         if state is not None:
             exp[(state, 'Li', 0)] = exp.get((state, 'Li', 0), 0) + 1
+        else:   # a '~>' state (one side unknown): only the total over the '~>' states is compared
+            exp[('~>', 'Li', 0)] = exp.get(('~>', 'Li', 0), 0) + 1
+            for sym, oc in (('S', other), ('Si', other2)):
+                d = pool.min_image_dist(M, xs[t], oc)
+                if d <= res * (nb - 1):
+                    b = int(math.ceil(d / res - 1e-12))
+                    exp[('~>', sym, b)] = exp.get(('~>', sym, b), 0) + 1
     got = {}
     for state, coll in rdfs.items():
-        if state.startswith('~>'):
-            continue
+        key = '~>' if state.startswith('~>') else state
         for r in coll:
             for b, v in enumerate(r.y):
                 if v:
-                    got[(state, r.label, b)] = int(v)
+                    got[(key, r.label, b)] = got.get((key, r.label, b), 0) + int(v)
     if got != exp:
         return False, f'per-state counts {got} != expected {exp}; states={st.ravel().tolist()} x={[x[0] for x in xs]} lattice={lat}'
     return True, 'ok'
